@@ -29,7 +29,7 @@ func (c04) Gen(tier string, seed int64, emit func([]Ev)) {
 	nrand := 300
 	bases := 12
 	if tier == "thorough" {
-		nrand = 20000
+		nrand = 100000
 		bases = 64
 	}
 	// PCR values: single-bit and 2^k-1 bases, every ext for sampled bases, limits, random
